@@ -1,7 +1,7 @@
 (* Pinned statements of C03 (generated once by tools/mkpins.py from coq/props/C03.v, then committed). *)
 From DV Require Import Model.Base Model.NameCheck Model.Parser Model.Header Model.Readers
   Spec.NameSpec Spec.PacketSpec Spec.RecordSpec
-  Proofs.Hoare Proofs.ParserTotal Proofs.ParserInv Proofs.ReadersAgree Proofs.ReadersLabels Proofs.WalkValues props.C03.
+  Proofs.Hoare Proofs.ParserTotal Proofs.ParserInv Proofs.ReadersAgree Proofs.ReadersLabels Proofs.WalkValues Proofs.WalkSkip props.C03.
 Check (C03_skip_name_agrees : forall (p : bytes) (off e : nat),
   check_compressed_name p off = Ok e -> e < length p -> skip_name p off = Ok e).
 Print Assumptions C03_skip_name_agrees.
@@ -33,6 +33,27 @@ Check (C03_walk_values : forall p v, bytes_ok p -> parse p = Ok v ->
     records_at p e1 ln e2 /\ length ln = N.to_nat ns /\ walk_views v SNameServers = Ok (map (view_of p) ln) /\
     records_at p e2 lr (length p) /\ length lr = N.to_nat ar /\ walk_views v SAdditional = Ok (map (view_of p) lr)).
 Print Assumptions C03_walk_values.
+Check (C03_walks : forall p v, bytes_ok p -> parse p = Ok v ->
+  exists an ns ar qe e1 e2 la ln lr,
+    hdr_ancount p = Ok an /\ hdr_nscount p = Ok ns /\ hdr_arcount p = Ok ar /\ cname p 12 qe /\
+    records_at p (qe + 4) la e1 /\ length la = N.to_nat an /\
+    records_at p e1 ln e2 /\ length ln = N.to_nat ns /\
+    records_at p e2 lr (length p) /\ length lr = N.to_nat ar /\
+    forallb non_opt la = true /\ forallb non_opt ln = true /\ opt_ok false lr /\
+    walk_views v SAnswer = Ok (map (view_of p) la) /\ walk_views_skip v SAnswer = Ok (map (view_of p) la) /\
+    walk_views v SNameServers = Ok (map (view_of p) ln) /\ walk_views_skip v SNameServers = Ok (map (view_of p) ln) /\
+    walk_views v SAdditional = Ok (map (view_of p) lr) /\
+    walk_views_skip v SAdditional = Ok (map (view_of p) (filter non_opt lr))).
+Print Assumptions C03_walks.
+Check (C03_question_cursor : forall p v, bytes_ok p -> parse p = Ok v ->
+  exists ls qe t c it,
+    cname_l p 12 ls qe /\ u16_at p qe t /\ u16_at p (qe + 2) c /\
+    q_next v (it_new SQuestion) = Ok (Some it) /\ it_offset it = Some 12 /\ it_name_end it = qe /\
+    it_copy_raw_name v it = Ok (wire_of_labels ls, length (wire_of_labels ls)) /\
+    it_name v it = Ok (ascii_lowercase (dotted ls)) /\
+    it_rr_type v it = Ok t /\ it_rr_class v it = Ok c /\
+    q_next v it = Ok None).
+Print Assumptions C03_question_cursor.
 Check (C03_reading_unique : forall p off l e, records_at p off l e ->
   forall l' e', records_at p off l' e' -> length l = length l' -> l = l' /\ e = e').
 Print Assumptions C03_reading_unique.
